@@ -424,7 +424,8 @@ class Case:
 
     def __init__(self, name, body, goals, family=None, params=None, allowed_exc=(), expect_exc=None,
                  unwind=2, max_paths=64, max_decisions=48, max_forks_per_site=6, timeout_ms=None,
-                 check_obligations=True, budget_s=None, nontrivial=True, int_hi=12):
+                 check_obligations=True, budget_s=None, nontrivial=True, int_hi=12, split=()):
+        self.split = tuple(split)
         self.name = name
         self.body = body
         self.goals = goals
@@ -476,6 +477,8 @@ def _model_inputs(model, env_inputs):
             vals[name] = bool(T.model_float(model, z3.Bool(name)))
         elif kind == "int":
             vals[name] = int(T.model_float(model, z3.Int(name)))
+        elif kind == "bv":  # bounded int encoded as a bit-vector of width `shape` (symint.bvint)
+            vals[name] = model.eval(z3.BitVec(name, shape), model_completion=True).as_signed_long()
         elif shape == ():
             vals[name] = T.model_float(model, z3.Real(name))
         else:
@@ -566,7 +569,8 @@ def run_case(case, cfg):
 
     results, leftover = explore(fn, unwind=case.unwind, max_paths=case.max_paths, max_decisions=case.max_decisions,
                                 feas_timeout_ms=cfg["feas_timeout_ms"], stats=est,
-                                max_forks_per_site=case.max_forks_per_site)
+                                max_forks_per_site=case.max_forks_per_site, split=case.split,
+                                deadline=t_start + budget * 0.6)
     rep["leftover"] = leftover
     rep["paths"] = len(results)
     reached = False
@@ -601,12 +605,14 @@ def run_case(case, cfg):
         if over_budget:
             rep["inconclusive"].append(dict(path=pi, goal="*", why="case budget exhausted"))
             continue
-        v, m_path, _ = smt.check_sat(hyps, timeout_ms, qs)
+        v, m_path = _reach(ctx, hyps, timeout_ms, qs)
         if v == "unsat":
             rep["path_status"]["vacuous"] = rep["path_status"].get("vacuous", 0) + 1
             continue
-        if v == "sat":
-            reached = True
+        if v in ("sat", "unknown"):
+            reached = True  # only a proven-unsat path condition makes a path vacuous
+            if v == "unknown":
+                rep["inconclusive"].append(dict(path=pi, goal="<reachability twin>", why="satisfiability of the path hypotheses unknown"))
         pch = hashlib.sha1(("|".join(sorted(str(p) for p in ctx.pc))).encode()).hexdigest()[:12]
         rep["pcs"].append(pch)
         env = None
@@ -652,7 +658,25 @@ def run_case(case, cfg):
             seen_formula.add(key)
             rep["goals"] += 1
             rep["goal_names"][_gfam(gname)] = rep["goal_names"].get(_gfam(gname), 0) + 1
-            verdict, model, dt = smt.prove(hyps, g, timeout_ms, qs)
+            verdict, model, dt = "unknown", None, 0.0
+            weak_model = None
+            if ctx.has_weak and isinstance(g, z3.ExprRef):
+                # relaxed attempt: weaker defining axioms (e.g. sqrt: s>=0, s=0 -> a=0); unsat is still a proof
+                verdict, weak_model, dt = smt.prove(ctx.hyps(weak=True), g, max(timeout_ms // 2, 2000), qs)
+                if verdict == "unsat":
+                    rep["relaxed_proofs"] = rep.get("relaxed_proofs", 0) + 1
+            if verdict != "unsat":
+                verdict, model, dt = smt.prove(hyps, g, timeout_ms, qs)
+            if verdict == "unknown" and weak_model is not None:
+                # candidate from the relaxed query: the real code is the arbiter
+                viol = _confirm(case, gname, weak_model, ctx, env, goal_index=gi, cfg=cfg,
+                                obligation=gname.startswith("defined["))
+                rep["replays"] += 1
+                if viol["reproduced"]:
+                    rep["sat"] += 1
+                    viol["detail"] += " (candidate from relaxed query, confirmed on the real code)"
+                    rep["violations"].append(viol)
+                    continue
             if verdict == "unsat":
                 rep["unsat"] += 1
                 if cfg.get("cross") and len(qs.cross) < cfg["cross_per_case"] and isinstance(g, z3.ExprRef):
@@ -678,6 +702,36 @@ def run_case(case, cfg):
     rep["fallbacks"] = dict(S.FALLBACKS)
     rep["pi_lifted"] = dict(T.PI_LIFTED)
     return rep
+
+
+_DEFINED = ("sqrt!", "quot!", "cos!", "sin!", "root", "floor!", "ceil!", "trunc!", "arccos!", "undef_")
+
+
+def _reach(ctx, hyps, timeout_ms, qs):
+    """reachability twin: are the path hypotheses satisfiable?  Falls back to fixing the base
+    variables (inputs, random draws) to a model of the relaxed hypotheses, which leaves only the
+    defined symbols (sqrt, quotients, ...) for the solver."""
+    v, m, _ = smt.check_sat(hyps, max(timeout_ms // 4, 2000), qs, strategies=("nlsat", "default"))
+    if v != "unknown" or not ctx.has_weak:
+        return v, m
+    vw, mw, _ = smt.check_sat(ctx.hyps(weak=True), max(timeout_ms // 4, 2000), qs, strategies=("nlsat", "default"))
+    if vw != "sat":
+        return v, m
+    fv = {}
+    for h in hyps:
+        T.free_vars(h, fv)
+    eqs = []
+    for name, var in fv.items():
+        if name.startswith(_DEFINED) or name == "pi" or not z3.is_real(var):
+            continue
+        val = mw.eval(var, model_completion=True)
+        if z3.is_algebraic_value(val):
+            val = val.approx(12)
+        eqs.append(var == val)
+    v2, m2, _ = smt.check_sat(list(hyps) + eqs, max(timeout_ms // 4, 2000), qs, strategies=("nlsat", "default"))
+    if v2 == "sat":
+        return "sat", m2
+    return v, m
 
 
 def _gfam(g):
